@@ -413,7 +413,7 @@ impl UnOp {
     fn eval(&self, arg: Value) -> Value {
         match *self {
             UnOp::Neg => match arg {
-                Value::Int(number) => Value::Int(-number),
+                Value::Int(number) => Value::Int(number.wrapping_neg()),
                 _ => Value::Null,
             },
             UnOp::BitNot => match arg {
@@ -458,7 +458,7 @@ impl BinOp {
             BinOp::Ge => Value::from_bool(arg1 >= arg2),
             BinOp::Add => match (arg1, arg2) {
                 (Value::Int(num1), Value::Int(num2)) => {
-                    Value::Int(num1 + num2)
+                    Value::Int(num1.wrapping_add(num2))
                 }
                 (Value::Str(str1), Value::Str(str2)) => {
                     Value::Str(str1 + &str2)
@@ -467,20 +467,23 @@ impl BinOp {
             },
             BinOp::Sub => match (arg1, arg2) {
                 (Value::Int(num1), Value::Int(num2)) => {
-                    Value::Int(num1 - num2)
+                    Value::Int(num1.wrapping_sub(num2))
                 }
                 _ => Value::Null,
             },
             BinOp::Mul => match (arg1, arg2) {
                 (Value::Int(num1), Value::Int(num2)) => {
-                    Value::Int(num1 * num2)
+                    Value::Int(num1.wrapping_mul(num2))
                 }
                 _ => Value::Null,
             },
             BinOp::Div => match (arg1, arg2) {
                 (_, Value::Int(0)) => Value::Null,
                 (Value::Int(num1), Value::Int(num2)) => {
-                    Value::Int(num1 / num2)
+                    match num1.checked_div(num2) {
+                        Some(quotient) => Value::Int(quotient),
+                        None => Value::Null,
+                    }
                 }
                 _ => Value::Null,
             },
@@ -504,13 +507,25 @@ impl BinOp {
             },
             BinOp::Shl => match (arg1, arg2) {
                 (Value::Int(num1), Value::Int(num2)) => {
-                    Value::Int(num1 << num2)
+                    match u32::try_from(num2)
+                        .ok()
+                        .and_then(|shift| num1.checked_shl(shift))
+                    {
+                        Some(result) => Value::Int(result),
+                        None => Value::Null,
+                    }
                 }
                 _ => Value::Null,
             },
             BinOp::Shr => match (arg1, arg2) {
                 (Value::Int(num1), Value::Int(num2)) => {
-                    Value::Int(num1 >> num2)
+                    match u32::try_from(num2)
+                        .ok()
+                        .and_then(|shift| num1.checked_shr(shift))
+                    {
+                        Some(result) => Value::Int(result),
+                        None => Value::Null,
+                    }
                 }
                 _ => Value::Null,
             },
